@@ -126,6 +126,25 @@ def cacheSet (key : String) (args : List Obj) (res : Obj) (output : Bytes) : M U
   let others := st.cache.filter (fun c => !(c.key == key && keyEqList c.args args))
   set { st with cache := { key := key, args := args, result := res, output := output } :: others }
 
+/-- the parameter binding loop of `extendFunctionEnv`: `some e` = stop with this error -/
+def bindParams (nenv : Nat) : List (String × Obj) → M (Option Obj)
+  | [] => pure none
+  | (p, a) :: rest => do
+    let pval ← valueOf a
+    let oerr ← createOrSet nenv p pval true
+    if oerr.isError then pure (some oerr) else bindParams nenv rest
+
+/-- the split of the arguments of a variadic call: (named parameters, their arguments, extra) -/
+def splitArgs (f : FuncVal) (args : List Obj) : List String × List Obj × List Obj :=
+  if f.variadic then
+    let n := f.params.length - 1
+    let params := f.params.take n
+    let args := match args.getLast? with
+      | some (.array els) => args.dropLast ++ els
+      | _ => args
+    if args.length ≥ n then (params, args.take n, args.drop n) else (params, args, [])
+  else (f.params, args, [])
+
 /-- `extendFunctionEnv` (NoReg path) together with `NewFunctionEnvironment` -/
 def extendFunctionEnv (f : FuncVal) (args : List Obj) : M (Except Obj Nat) := do
   let cur ← curEnv
@@ -134,20 +153,11 @@ def extendFunctionEnv (f : FuncVal) (args : List Obj) : M (Except Obj Nat) := do
   let parent := if same then cur else f.env
   let pf ← getFrame parent
   let nenv ← newFrame { outer := some parent, cacheKey := f.key, depth := pf.depth + 1, function := some f }
-  let (params, args, extra) :=
-    if f.variadic then
-      let n := f.params.length - 1
-      let params := f.params.take n
-      let args := match args.getLast? with
-        | some (.array els) => args.dropLast ++ els
-        | _ => args
-      if args.length ≥ n then (params, args.take n, args.drop n) else (params, args, [])
-    else (f.params, args, [])
+  let (params, args, extra) := splitArgs f args
   if args.length != params.length then return .error (err "wrong number of arguments")
-  for (p, a) in params.zip args do
-    let pval ← valueOf a
-    let oerr ← createOrSet nenv p pval true
-    if oerr.isError then return .error oerr
+  match ← bindParams nenv (params.zip args) with
+  | some oerr => return .error oerr
+  | none => pure ()
   if f.variadic then
     let _ ← setNoChecks nenv ".." (newArray extra) true
   pure (.ok nenv)
